@@ -1612,63 +1612,93 @@ INCONCLUSIVE = []  # tooling time-outs and slow answers: recorded in the evidenc
 
 
 KILLED = (-9, -15, 137, 143)      # SIGKILL / SIGTERM from outside (OOM killer, another agent's kill): tooling, not the library
+# bounded cost of hang / crash handling, shared by every stream, binary and worker thread of the run
+import threading
+HLOCK = threading.Lock()
+BANNED = set()                    # call forms (variants) not driven any more in this run: confirmed "does not return", or 4 crashes
+FIRST_STAGE = [0]                 # first-stage CPU-budget overruns (5 s of CPU time per call) seen in this run: at most 6
+CONFIRMED = [0]                   # confirmed "does not return" (the case alone, 20 s of CPU time): at most 3
+CRASHES = {}                      # variant -> confirmed crashes
+STOP = [False]                    # caps reached: nothing more is driven in this run (recorded as not run, never as a pass)
 
 
 def run_binary(binary, lines, timeout=300):
     """run the implementation harness on the lines; the case a batch dies on is looked at ALONE before any verdict.
-    * does not return: the harness has a per-case CPU-time watchdog (20 s of CPU time, load independent; exit code 97 and the line
-      CPU-BUDGET-EXCEEDED).  The case is re-run alone with a budget of 120 s CPU: only if that is exceeded too is it a failing input
-      of class `hang` ("does not return").
+    * does not return: the harness has a per-case CPU-time watchdog (5 s of CPU time, load independent; exit code 97 and the line
+      CPU-BUDGET-EXCEEDED).  The case is re-run alone with a budget of 20 s CPU: only if that is exceeded too is it a failing input
+      of class `does-not-return`; its call form is then BANNED for the rest of the run (every stream, binary and thread).  At most 3
+      confirmations and 6 first-stage overruns per run, then nothing more is driven (STOP).  Confirmations are serialised under a lock
+      shared by all worker threads, so a hang costs one budget, not one per worker.
     * wall-clock time-out of a batch or of the single re-run (machine overloaded), or a process killed from outside (SIGKILL/SIGTERM:
       OOM killer): tooling -> the case is `inconclusive` (listed in the evidence, counted against the floor), never a violation.
-    * crash of the process by its own fault (SIGSEGV, SIGABRT, ...): confirmed by the single re-run, then class `crash`.
-    returns (outputs or None for a lost case, [(index, verdict)], thr header); verdict in {"hang", "inconclusive:<why>", <rc>}"""
+    * crash of the process by its own fault (SIGSEGV, SIGABRT, ...): confirmed by the single re-run, then class `crash`; after 4
+      confirmed crashes of a call form it is banned as well.
+    returns (outputs or None for a lost case, [(index, verdict)], thr header)"""
     outs = [None] * len(lines)
     crashed = []
-    start = 0
     hdr = None
-    hangs = 0
+    form = [l.split(None, 1)[0] if l.strip() else "" for l in lines]
+    todo = list(range(len(lines)))
 
     def clean(o):
         return [l for l in o if not l.startswith("#") and l != "CPU-BUDGET-EXCEEDED"]
-    while start < len(lines):
-        rc, o, err = vf.run_lines(binary, "".join(lines[start:]), timeout=timeout)
+    while todo:
+        keep = []
+        for j in todo:
+            if STOP[0]:
+                crashed.append((j, "not-run-caps-of-hang-handling-reached"))
+            elif form[j] in BANNED:
+                crashed.append((j, "not-run-call-form-banned-after-does-not-return-or-crashes"))
+            else:
+                keep.append(j)
+        todo = keep
+        if not todo:
+            break
+        rc, o, err = vf.run_lines(binary, "".join(lines[j] for j in todo), timeout=timeout)
         h = [l for l in o if l.startswith("#thr")]
         if h:
             hdr = h[0]
         o = clean(o)                                    # lines are flushed one by one: every line in o is complete
-        for i, l in enumerate(o[:len(lines) - start]):
-            outs[start + i] = l
-        if rc == 0 and len(o) >= len(lines) - start:
+        for j, l in zip(todo, o):
+            outs[j] = l
+        if rc == 0 and len(o) >= len(todo):
             break
-        k = start + len(o)
-        if k < len(lines):
-            # the case the batch died on, alone: CPU budget 120 s, wall-clock 900 s
-            rc1, o1, _ = vf.run_lines(binary, lines[k], timeout=900, args=("120" if HANGS[0] == 0 else "40",))      # shorter once a hang is confirmed
-            o1c = clean(o1)
-            if rc1 == 0 and len(o1c) == 1:
-                outs[k] = o1c[0]
-                if rc != 97:
-                    INCONCLUSIVE.append("a batch of %d cases ended with rc=%s; the case it was on answered when run alone: %s" % (len(lines) - start, rc, lines[k][:120].strip()))
-            elif rc1 == 97:
-                crashed.append((k, "hang"))             # 120 s of CPU time for one call
-                hangs += 1
-                HANGS[0] += 1
-            elif rc1 == 124 or rc1 in KILLED:
-                crashed.append((k, "inconclusive:%s" % ("wall-clock time-out of the single re-run" if rc1 == 124 else "killed from outside (rc=%s)" % rc1)))
+        if len(o) >= len(todo):
+            if rc == 124 or rc in KILLED:
+                INCONCLUSIVE.append("harness ended with rc=%s after its last case" % rc)
+            break
+        k = todo[len(o)]
+        todo = todo[len(o) + 1:]
+        with HLOCK:                                      # one confirmation at a time in the whole run
+            if rc == 97:
+                FIRST_STAGE[0] += 1
+            if STOP[0]:
+                crashed.append((k, "not-run-caps-of-hang-handling-reached"))
+            elif form[k] in BANNED:
+                crashed.append((k, "not-run-call-form-banned-after-does-not-return-or-crashes"))
+            elif rc == 97 and (CONFIRMED[0] >= 3 or FIRST_STAGE[0] > 6):
+                STOP[0] = True
+                crashed.append((k, "not-run-caps-of-hang-handling-reached"))
+                INCONCLUSIVE.append("caps of the hang handling reached (%d confirmed, %d first-stage overruns): nothing more is driven in this run" % (CONFIRMED[0], FIRST_STAGE[0]))
             else:
-                crashed.append((k, rc1))
-        elif rc == 124 or rc in KILLED:
-            INCONCLUSIVE.append("harness ended with rc=%s after its last case" % rc)
-        if hangs >= 2 or HANGS[0] >= 3:
-            for j in range(k + 1, len(lines)):
-                crashed.append((j, "not-run-after-repeated-hangs"))
-            break
-        start = k + 1
-        if len(crashed) > 25:
-            for j in range(start, len(lines)):
-                crashed.append((j, "not-run-after-25-crashes"))
-            break
+                # the case the batch died on, alone: CPU budget 20 s (a hang) / 5 s (a crash), wall-clock 600 s
+                rc1, o1, _ = vf.run_lines(binary, lines[k], timeout=600, args=("20",) if rc == 97 else ())
+                o1c = clean(o1)
+                if rc1 == 0 and len(o1c) == 1:
+                    outs[k] = o1c[0]
+                    if rc != 97:
+                        INCONCLUSIVE.append("a batch ended with rc=%s; the case it was on answered when run alone: %s" % (rc, lines[k][:120].strip()))
+                elif rc1 == 97:
+                    crashed.append((k, "hang"))          # 20 s of CPU time for one call, alone
+                    CONFIRMED[0] += 1
+                    BANNED.add(form[k])
+                elif rc1 == 124 or rc1 in KILLED:
+                    crashed.append((k, "inconclusive:%s" % ("wall-clock time-out of the single re-run" if rc1 == 124 else "killed from outside (rc=%s)" % rc1)))
+                else:
+                    crashed.append((k, rc1))
+                    CRASHES[form[k]] = CRASHES.get(form[k], 0) + 1
+                    if CRASHES[form[k]] >= 4:
+                        BANNED.add(form[k])
     return outs, crashed, hdr
 
 
@@ -1915,13 +1945,13 @@ def run_stream(chk, label, bins, tag, drv, cases, kthr, sthr, stats):
             if iout[i] is None and i not in crashed_set:
                 stats["inconclusive_cases"] += 1      # no answer and no verdict (e.g. no binary): tooling
                 continue
-            klass = "hang" if crashed_set.get(i) == "hang" else "crash"
+            klass = "does-not-return" if crashed_set.get(i) == "hang" else "crash"
             if op == "power_compose" and not norm(a[0]):
                 klass = "zero-polynomial"
             if op in ("add_s", "sub_s") and a[0] and not norm(a[0]):
                 klass = "unnormalised-zero-operand"
             chk.fail_input("Poly1Dom::" + op, klass, case, "a result",
-                           "does not return within 120 s (40 s after the first confirmed hang of the run) of CPU time, run alone" if klass == "hang" else "no answer (%s)" % crashed_set.get(i, "?"),
+                           "does not return within 20 s of CPU time when run alone (5 s in its batch)" if klass == "does-not-return" else "no answer (%s)" % crashed_set.get(i, "?"),
                            "the implementation harness died or did not return on this case, also when the case was run alone")
             continue
         if i % 211 == 0:
@@ -2086,7 +2116,10 @@ def main(tier, replay=None):
     chk.cov["cases_judged_by_oracle_only_no_model"] = stats["oracle_only"]
     chk.cov["cases_in_a_known_defect_class_judged_by_oracle_only"] = stats["in_known_defect_class_oracle_only"]
     if stats["not_run"]:
-        chk.broke("%d cases were not run because the implementation harness hung or crashed repeatedly" % stats["not_run"])
+        chk.broke("%d cases were not run: call forms banned after a confirmed does-not-return / 4 crashes (%s)%s" % (
+            stats["not_run"], ", ".join(sorted(BANNED)) or "-", "; caps of the hang handling reached, run stopped" if STOP[0] else ""))
+    chk.cov["hang_handling"] = {"first_stage_cpu_s": 5, "confirmation_cpu_s": 20, "first_stage_overruns": FIRST_STAGE[0], "confirmed_does_not_return": CONFIRMED[0],
+                                "call_forms_banned": sorted(BANNED), "stopped": STOP[0], "caps": "3 confirmations, 6 first-stage overruns per run, 4 crashes per form"}
     chk.cov["variants"] = len(VARIANTS)
     chk.cov["thresholds_from_source"] = [kth, sth]
     chk.cov["powmod_exponent0_initialisation_from_source"] = "mod(W,one,U)" if E0RED[0] else "assign(W,one)"
